@@ -443,7 +443,7 @@ Proof.
   destruct (lz_C12_dist g wts s Hsg Hpos ltac:(lia)) as [t [Ht _]]. exists t. exact Ht.
 Qed.
 
-(* (iii) consistency across sources — STATED, NOT PROVED (covered by the correspondence + the independent
+(* (iii) consistency across sources — STATED HERE, PROVED in LexSPProofsCons5.lc_C12_consistent (Properties_C12.C12_consistent) (covered by the correspondence + the independent
    judge of tools/props/c12.py): the tree walk u -> v uses the edges of the tree walk v -> u in reverse order, and
    every sub-walk of a tree walk is the tree walk between its endpoints *)
 Definition C12_consistent_statement : Prop :=
